@@ -55,6 +55,21 @@ def decide(pid, tier, parts, level, meta):
             log('[%s]   %s (bounded): %s %s (%d evaluations, %.1fs)' % (pid, nr.name, nr.status, nr.reason, nr.evaluations, nr.wall_s))
             results.append(nr)
 
+    # a native harness can serve several properties (the sweep of the emitted modules checks statements of C04, C05 and C07): a property
+    # only owns the failure classes it names; the others are another property's business and are listed in the evidence, not reported here
+    own = meta.get('own_classes')
+    foreign = []
+    if own:
+        rx = re.compile(own)
+        for r in results:
+            if r.kind == 'bounded' and r.name in meta.get('routed_natives', ('gen',)):
+                keep = [f for f in r.failures if rx.search(f.get('class', '') or '')]
+                foreign.extend(f for f in r.failures if f not in keep)
+                r.failures = keep
+                if not keep and r.status == 'violation':
+                    r.status = 'ok'
+    meta['_foreign'] = ['%s: %s' % (f.get('class'), (f.get('message') or '')[:200]) for f in foreign]
+
     known = load_known()
     violations = []     # (failure dict, replayable bool)
     known_hits = []
@@ -177,6 +192,8 @@ def evidence(pid, tier, seed, level, results, violations, known_hits, undecided,
     cov['parts'] = [{'name': r.name, 'kind': r.kind, 'status': r.status, 'reason': r.reason, 'wall_s': round(r.wall_s, 2)} for r in results]
     cov['undecided'] = undecided
     cov['known_findings_reported'] = [k['id'] for (_, _, k) in known_hits]
+    if meta.get('_foreign'):
+        cov['failures_owned_by_other_properties'] = meta['_foreign']
     return {
         'property_id': pid, 'tier': tier, 'seed': seed, 'level': level, 'coverage': cov,
         'assumptions': meta.get('assumptions', []) + ['trusted: ' + t for t in trusted],
